@@ -226,6 +226,9 @@ func deleteChildren(client *dynamicclientset.ResourceClient, parent *unstructure
 type lastUpdate struct {
 	hash               uint64
 	resourcegeneration int64
+	// uid tells a child from a later object of the same name (whose
+	// generation starts over).
+	uid types.UID
 }
 
 var (
@@ -263,7 +266,7 @@ func updateChildren(client *dynamicclientset.ResourceClient, updateStrategy Chil
 				cacheLock.RLock()
 				if lastUpdated, ok := lastUpdatedCache[lastUpdateCacheName]; ok {
 					cacheLock.RUnlock()
-					if lastUpdated.hash == hash && lastUpdated.resourcegeneration == oldObj.GetGeneration() {
+					if lastUpdated.hash == hash && lastUpdated.resourcegeneration == oldObj.GetGeneration() && lastUpdated.uid == oldObj.GetUID() {
 						logging.Logger.Info("Skipping update, no changes detected", "name", lastUpdateCacheName)
 						continue
 					}
@@ -304,6 +307,7 @@ func updateChildren(client *dynamicclientset.ResourceClient, updateStrategy Chil
 			lastUpdatedCache[lastUpdateCacheName] = &lastUpdate{
 				hash:               hash,
 				resourcegeneration: patched.GetGeneration(),
+				uid:                patched.GetUID(),
 			}
 
 			logging.Logger.Info("Cache updated", "name", lastUpdateCacheName)
